@@ -113,6 +113,8 @@ class Sched(object):
         self.state_keys = set()
         self.state_probe = None      # callable() -> hashable snapshot of shared state (cheap)
         self.active = False
+        self.visit = None            # callable(sched, point index) -> True to cut the execution here (closed-form search)
+        self.cut = False
 
     # ------------------------------------------------------------------ thread side
     def current_tid(self):
@@ -122,6 +124,8 @@ class Sched(object):
 
     def point(self, tid, why):
         """Scheduling point: hand the baton to the scheduler and wait to be resumed."""
+        if self.abort:
+            raise Abort()        # the execution is being torn down: never block again (also while unwinding through __exit__)
         self.main.release()
         self.sems[tid].acquire()
         if self.abort:
@@ -168,7 +172,8 @@ class Sched(object):
             finally:
                 self.where[tid] = ('<done>', 0)
                 self.done.add(tid)
-                self.main.release()
+                if not self.abort:
+                    self.main.release()
         t = threading.Thread(target=run, name='lv-%d' % tid)
         t.daemon = True
         self.threads[tid] = t
@@ -198,6 +203,9 @@ class Sched(object):
                         self.deadlock = sorted(set(self.threads) - self.done)
                     break
                 order = ([cur] if cur in en else []) + [t for t in en if t != cur]
+                if self.visit is not None and self.visit(self, i):
+                    self.cut = True
+                    break
                 c = self.choices[i] if i < len(self.choices) else 0
                 if c >= len(order):
                     raise W.HarnessError('schedule replay diverged at point %d: choice %d of %d' % (i, c, len(order)))
